@@ -64,7 +64,7 @@ Proof. intros ->; auto. Qed.
 
 Ltac fxind2 e :=
   induction e as [p|p| |c|c|g|a b c|s f IHf|s f IHf|v f IHf|f IHf g IHg|f IHf c|f IHf t|f IHf a u c
-                 |f IHf g IHg|f IHf|qb IHq|k f IHf g IHg].
+                 |f IHf g IHg|f IHf|qb IHq|k f IHf g IHg|pb P].
 
 Section G.
 Variable sqrtf : R -> R.
@@ -116,6 +116,7 @@ Proof.
     assert (L1 : length (firstn k x) = k) by (rewrite firstn_length; lia).
     assert (L2 : length (skipn k x) = (n - k)%nat) by (rewrite skipn_length; lia).
     rewrite app_length, (IHf k _ _ _ H1 L1 E1), (IHg (n - k)%nat _ _ _ H2 L2 E2). lia.
+  - (* FPair *) destruct Hl as [_ Hgl]. exact (Hgl w pb x r Lx Hg).
 Qed.
 
 (* -------------------------------------------------------------- leaf facts *)
@@ -175,10 +176,10 @@ Qed.
 
 (* ------------------------------------------------------------- main theorem *)
 Theorem grad_equality_all e : forall n w x g vx vg,
-  wf n e -> wpos w -> length w = n -> length x = n ->
+  wf n e -> wpos w -> wadm w e -> length w = n -> length x = n ->
   grd e w x = Ok g -> val e w x = Ok vx -> cval w e g = Ok vg -> geq vx vg (wdot w x g).
 Proof.
-  fxind2 e; intros n w x gx vx vg Hwf Hw Lw Lx Hg Hv Hc.
+  fxind2 e; intros n w x gx vx vg Hwf Hw Hwa Lw Lx Hg Hv Hc; cbn [wadm] in Hwa.
   - (* FLp *) destruct p; cbn in Hg, Hv, Hc; inv_ok.
     + destruct (l1_grad_vec w x) as [H1 H2]. unfold geq. numR.
       rewrite (Rltb_false (1 + 0)) by lra. cbn [eadd]. numR. fin_ring.
@@ -227,13 +228,13 @@ Proof.
     destruct (val f w x) as [v|] eqn:E1; cbn [rbind] in Hv; inv_ok.
     rewrite vscal_inv_l in Hc by lra.
     destruct (cval w f g0) as [v'|] eqn:E2; cbn [rbind] in Hc; inv_ok.
-    pose proof (IHf n w x g0 v v' Hwf Hw Lw Lx E0 E1 E2) as H.
+    pose proof (IHf n w x g0 v v' Hwf Hw Hwa Lw Lx E0 E1 E2) as H.
     apply (geq_escal s) in H. rewrite wdot_vscal_r. exact H.
   - (* FRight *) cbn [wf] in Hwf. destruct Hwf as [Hs Hwf].
     rewrite cval_FRight in Hc by assumption. cbn [value grad] in Hv, Hg.
     destruct (grd f w (vscal s x)) as [g0|] eqn:E0; cbn [rbind] in Hg; inv_ok.
     rewrite vscal_inv_l in Hc by assumption.
-    pose proof (IHf n w (vscal s x) g0 vx vg Hwf Hw Lw ltac:(rewrite vscal_length; assumption) E0 Hv Hc) as H.
+    pose proof (IHf n w (vscal s x) g0 vx vg Hwf Hw Hwa Lw ltac:(rewrite vscal_length; assumption) E0 Hv Hc) as H.
     rewrite wdot_vscal_l in H. rewrite wdot_vscal_r. exact H.
   - (* FRightVec *) cbn [wf] in Hwf. destruct Hwf as (Lv & Hnz & Hwf).
     rewrite cval_FRightVec in Hc. cbn [value grad] in Hv, Hg.
@@ -242,7 +243,7 @@ Proof.
     pose proof (grad_length f n w _ g0 (wf_lenwf f n Hwf) Lvx E0) as Lg0.
     rewrite vmul_inv_cancel in Hc by (assumption || congruence).
     rewrite (vmul_comm x v) in Hv.
-    pose proof (IHf n w (vmul v x) g0 vx vg Hwf Hw Lw Lvx E0 Hv Hc) as H.
+    pose proof (IHf n w (vmul v x) g0 vx vg Hwf Hw Hwa Lw Lvx E0 Hv Hc) as H.
     rewrite (vmul_comm v x), wdot_vmul_move in H. exact H.
   - (* FSum *) rewrite cval_FSum in Hc. discriminate.
   - (* FScalarSum *) cbn [wf] in Hwf. rewrite cval_FScalarSum in Hc. cbn [value grad] in Hv, Hg. unfold radd in *.
@@ -251,12 +252,12 @@ Proof.
     rewrite vadd_zmap_r in * by congruence.
     destruct (val f w x) as [v|] eqn:E1; cbn [rbind] in Hv; inv_ok.
     destruct (cval w f g0) as [v'|] eqn:E2; cbn [rbind] in Hc; inv_ok.
-    pose proof (IHf n w x g0 v v' Hwf Hw Lw Lx E0 E1 E2) as H.
+    pose proof (IHf n w x g0 v v' Hwf Hw Hwa Lw Lx E0 E1 E2) as H.
     apply (geq_shift _ _ _ c (-1 * c)) in H. eapply geq_eq; [|exact H]. ring.
   - (* FTransl *) cbn [wf] in Hwf. destruct Hwf as [Lt Hwf].
     rewrite cval_FTransl in Hc. cbn [value grad] in Hv, Hg.
     destruct (cval w f gx) as [v'|] eqn:E2; cbn [rbind] in Hc; inv_ok.
-    pose proof (IHf n w (vsub x t) gx vx v' Hwf Hw Lw ltac:(rewrite vsub_length; congruence) Hg Hv E2) as H.
+    pose proof (IHf n w (vsub x t) gx vx v' Hwf Hw Hwa Lw ltac:(rewrite vsub_length; congruence) Hg Hv E2) as H.
     rewrite wdot_vsub_l in H by congruence.
     apply (geq_shift_r _ _ _ (0 * wdot w gx gx)) in H.
     apply (geq_shift_r _ _ _ (wdot w gx t)) in H.
@@ -273,7 +274,7 @@ Proof.
     assert (Hcore : forall v', cval w f g0 = Ok v' ->
               geq (eadd (eadd (eadd v (EFin (0 * wdot w x x))) (EFin (wdot w x u))) (EFin c))
                   (eadd v' (EFin (- 1 * c))) (wdot w x (vadd g0 u))).
-    { intros v' E2. pose proof (IHf n w x g0 v v' Hwf Hw Lw Lx E0 E1 E2) as H.
+    { intros v' E2. pose proof (IHf n w x g0 v v' Hwf Hw Hwa Lw Lx E0 E1 E2) as H.
       apply (geq_shift_l _ _ _ (0 * wdot w x x)) in H.
       apply (geq_shift_l _ _ _ (wdot w x u)) in H.
       apply (geq_shift _ _ _ c (-1 * c)) in H.
@@ -305,10 +306,13 @@ Proof.
     rewrite F1 in C1. rewrite F2 in C2.
     destruct (val f (firstn k w) (firstn k x)) as [v1|] eqn:E1; cbn [rbind] in Hv; inv_ok.
     destruct (val g (skipn k w) (skipn k x)) as [v2|] eqn:E2; cbn [rbind] in Hv; inv_ok.
-    pose proof (IHf k _ _ _ _ _ Hwf1 (wpos_firstn k w Hw) (Lf w Lw) (Lf x Lx) G1 E1 C1) as H1.
-    pose proof (IHg (n - k)%nat _ _ _ _ _ Hwf2 (wpos_skipn k w Hw) (Ls w Lw) (Ls x Lx) G2 E2 C2) as H2.
+    pose proof (IHf k _ _ _ _ _ Hwf1 (wpos_firstn k w Hw) (proj1 Hwa) (Lf w Lw) (Lf x Lx) G1 E1 C1) as H1.
+    pose proof (IHg (n - k)%nat _ _ _ _ _ Hwf2 (wpos_skipn k w Hw) (proj2 Hwa) (Ls w Lw) (Ls x Lx) G2 E2 C2) as H2.
     rewrite (wdot_split k w x (g1 ++ g2)).
     rewrite F1, F2. apply geq_sum; assumption.
+  - (* FPair *) cbn [wf] in Hwf. destruct Hwf as (_ & _ & Hok). destruct (Hok w Hw Lw Hwa) as (_ & Hge).
+    cbn [grad value] in Hg, Hv. unfold Rules.cval in Hc. cbn [cconj value] in Hc.
+    exact (Hge pb x gx vx vg Lx Hg Hv Hc).
 Qed.
 
 End G.
@@ -316,11 +320,11 @@ End G.
 Lemma grad_equality_tree (sqrtf : R -> R) :
   (forall a, 0 <= a -> 0 <= sqrtf a /\ sqrtf a * sqrtf a = a) ->
   forall (e e' : fxR) n w x g vx vg,
-  wf n e -> wpos w -> length w = n -> length x = n ->
+  wf n e -> wpos w -> wadm w e -> length w = n -> length x = n ->
   grad sqrtf e w x = Ok g -> value sqrtf 0 e w x = Ok vx ->
   cconj w e = Ok e' -> value sqrtf 0 e' w g = Ok vg ->
   eadd vx vg = EFin (wdot w x g).
 Proof.
-  intros Hsq e e' n w x g vx vg Hwf Hw Lw Lx Hg Hv Hc Hv'.
+  intros Hsq e e' n w x g vx vg Hwf Hw Hwa Lw Lx Hg Hv Hc Hv'.
   apply (grad_equality_all sqrtf Hsq e n w x g vx vg); auto. unfold cval. rewrite Hc. exact Hv'.
 Qed.
